@@ -80,34 +80,9 @@ theorem used_exact (s : State) (hI : Inv s) (hq : s.reserved = []) (p : Nat) :
   rw [hI.used_iff, hq]; simp
 
 /-- in a reachable state `qfree` never hits the `set.remove` KeyError, so *every* fault is atomic
-(C04.fault_atomic without its side condition) -/
+(C04.fault_atomic_reachable) -/
 theorem no_usedKey (hw : Bool) (a : Nat) (i : Instr) (s s' : State) (pc : Int) (hI : Inv s) :
-    step hw a i s pc ≠ .fault s' .usedKey := by
-  intro h
-  rcases hap : s.apps a with _ | ap
-  · unfold step at h; simp only [hap] at h; split at h <;> cases h
-  · rcases hl : stepLoc hw a i (s.loc ap) pc with ⟨l, pc'⟩ | ⟨l, f⟩
-    · rw [step_ok_of_loc hap hl] at h; cases h
-    · rw [step_fault_of_loc hap hl] at h
-      cases h
-      have hq := stepLoc_qchange hw a i (s.loc ap) pc
-      cases i <;> simp only [stepLoc] at hl
-      all_goals first
-        | (have := (wr_fault hl).2; cases this; done)
-        | skip
-      all_goals (try (unfold arith at hl)); (try (unfold arithm at hl))
-      all_goals
-        repeat' split at hl
-      all_goals first
-        | (cases hl; done)
-        | (have := (wr_fault hl).2; cases this; done)
-        | (simp only [br_ok] at hl; cases hl; done)
-        | skip
-      -- the only remaining case: qfree of a mapped qubit that is not marked used
-      rename_i p _ _ q hq' hmem
-      apply hmem
-      have hu : unitOf s a = some ap.unit := by simp [unitOf, hap]
-      exact (hI.used_iff q).2 (Or.inl ⟨a, p, by simp [phys, hu, physU]; exact hq'⟩)
+    step hw a i s pc ≠ .fault s' .usedKey := Exec.no_usedKey hw a i s s' pc hI
 
 /-! ## Isolation -/
 
@@ -202,6 +177,117 @@ theorem double_init_rejected (s : State) (a n : Nat) (hI : Inv s) (h : s.apps a 
 theorem alloc_fresh (l : List Nat) : firstUnused l ∉ l ∧ ∀ q, q < firstUnused l → q ∈ l :=
   ⟨firstUnused_not_mem l, fun q h => firstUnusedFrom_min l.length l 0 q (Nat.zero_le _) h⟩
 
+/-! ## Subroutines of several applications in flight at once
+
+`execute_subroutine` is a generator; the runtime may start a subroutine of one application while
+subroutines of others are suspended and resume them in any order.  `Exec.tick` advances one
+in-flight subroutine by one instruction (the finest switching granularity, which includes every
+yield point of the executor itself); a history is a list of `IOp`s: sequential operations,
+`spawn`, `tick`.  Each tick is a step of ONE application against the shared controller state, so
+the per-step theorems compose over every schedule. -/
+
+theorem inv_tick (hw : Bool) (sys : Sys) (i : Nat) (hI : Inv sys.s) : Inv (tick hw sys i).s := by
+  unfold tick
+  split
+  · exact hI
+  · split
+    · exact hI
+    · exact inv_run hw _ _ 1 sys.s _ hI
+
+/-- resuming a subroutine changes neither the application nor the code of any in-flight subroutine -/
+theorem tick_subs_app (hw : Bool) (sys : Sys) (i j : Nat) :
+    ((tick hw sys i).subs[j]?).map (fun sb => (sb.a, sb.prog)) = (sys.subs[j]?).map (fun sb => (sb.a, sb.prog)) := by
+  unfold tick
+  split
+  · rfl
+  · rename_i sb hsb
+    split
+    · rfl
+    · simp only [List.getElem?_set]
+      split
+      · rename_i hij
+        subst hij
+        split
+        · simp [hsb]
+        · rename_i hlt
+          have := List.getElem?_eq_none (Nat.le_of_not_lt hlt)
+          simp [this] at hsb
+      · rfl
+
+/-- a tick of a subroutine of application `a` leaves every other application unchanged -/
+theorem tick_isolation (hw : Bool) (sys : Sys) (i b : Nat)
+    (h : ∀ sb, sys.subs[i]? = some sb → sb.a ≠ b) : (tick hw sys i).s.apps b = sys.s.apps b := by
+  unfold tick
+  split
+  · rfl
+  · rename_i sb hsb
+    split
+    · rfl
+    · exact Exec.run_apps_other hw sb.a sb.prog 1 sys.s sb.pc b (fun e => h sb hsb e.symm)
+
+/-- … hence so does every schedule that resumes only subroutines of other applications, however
+they are interleaved -/
+theorem schedule_isolation (hw : Bool) (sched : List Nat) (sys : Sys) (b : Nat)
+    (h : ∀ i ∈ sched, ∀ sb, sys.subs[i]? = some sb → sb.a ≠ b) :
+    (sched.foldl (tick hw) sys).s.apps b = sys.s.apps b := by
+  induction sched generalizing sys with
+  | nil => rfl
+  | cons i rest ih =>
+    simp only [List.foldl_cons]
+    rw [ih (tick hw sys i)]
+    · exact tick_isolation hw sys i b (h i (by simp))
+    · intro j hj sb hsb
+      have h1 := tick_subs_app hw sys i j
+      rw [hsb] at h1
+      rcases h2 : sys.subs[j]? with _ | sb0
+      · simp [h2] at h1
+      · simp only [h2, Option.map_some, Option.some.injEq, Prod.mk.injEq] at h1
+        have := h j (by simp [hj]) sb0 h2
+        rw [h1.1]; exact this
+
+def ienvOk (sys : Sys) : IOp → Bool
+  | .base op => envOk sys.s op
+  | _ => true
+
+def ienvOkAll : Sys → List IOp → Bool
+  | _, [] => true
+  | sys, op :: rest => ienvOk sys op && ienvOkAll (iapply sys op) rest
+
+theorem inv_istep (sys : Sys) (op : IOp) (hI : Inv sys.s) (he : ienvOk sys op = true) :
+    Inv (iapply sys op).s := by
+  cases op with
+  | base op => exact inv_step sys.s op hI he
+  | spawn a prog => exact hI
+  | tick hw i => exact inv_tick hw sys i hI
+
+/-- the invariant holds after every history in which subroutines of several applications are in
+flight simultaneously and are advanced in an arbitrary order -/
+theorem reachable_interleaved (iops : List IOp) (sys : Sys) (hI : Inv sys.s)
+    (he : ienvOkAll sys iops = true) : Inv (iops.foldl iapply sys).s := by
+  induction iops generalizing sys with
+  | nil => exact hI
+  | cons op rest ih =>
+    have h2 : (ienvOk sys op && ienvOkAll (iapply sys op) rest) = true := he
+    have he' : ienvOk sys op = true ∧ ienvOkAll (iapply sys op) rest = true := by simpa using h2
+    exact ih (iapply sys op) (inv_istep sys op hI he'.1) he'.2
+
+/-- the application an interleaved operation belongs to -/
+def iopApp (sys : Sys) : IOp → Option Nat
+  | .base op => opApp op
+  | .spawn _ _ => none
+  | .tick _ i => (sys.subs[i]?).map (·.a)
+
+theorem isolation_interleaved (sys : Sys) (op : IOp) (b : Nat) (hb : iopApp sys op ≠ some b) :
+    (iapply sys op).s.apps b = sys.s.apps b := by
+  cases op with
+  | base op => exact isolation sys.s op b hb
+  | spawn a prog => rfl
+  | tick hw i =>
+    apply tick_isolation
+    intro sb hsb e
+    apply hb
+    simp [iopApp, hsb, e]
+
 /-! ## Non-vacuity: a concrete history with two applications, allocation, delivery, stop, re-registration -/
 
 def q0 : XReg := ⟨2, 0⟩
@@ -222,5 +308,19 @@ example : Inv (demoOps.foldl apply init0) := reachable_from_init demoOps (by dec
 is already mapped (so the hypothesis of `inv_step` for keep-responses is necessary) -/
 example : let s := ([.init 0 2, .sub false 0 [.set q0 0, .qalloc q0] 10, .keep 0 1 0] : List Op).foldl apply init0
     phys s 0 0 = some 0 ∧ phys s 0 1 = some 0 := by decide
+
+/-- the interleaving of the seeded-change demo: app 0 and app 1 both in flight, app 0 resumed while
+app 1 is suspended — app 1's registers are untouched and app 0's write lands in app 0 -/
+def r1 : XReg := ⟨0, 1⟩
+def demoIOps : List IOp :=
+  [.base (.init 0 2), .base (.init 1 2), .spawn 0 [.set q0 0, .qalloc q0, .set r1 42],
+   .spawn 1 [.set r1 7, .set q0 0, .qalloc q0], .tick false 0, .tick false 1, .tick false 0, .tick false 1,
+   .tick false 0, .tick false 1]
+
+example : let sys := demoIOps.foldl iapply sys0
+    (sys.s.apps 0).bind (·.regs r1) = some 42 ∧ (sys.s.apps 1).bind (·.regs r1) = some 7 ∧
+    phys sys.s 0 0 = some 0 ∧ phys sys.s 1 0 = some 1 := by decide
+
+example : Inv (demoIOps.foldl iapply sys0).s := reachable_interleaved demoIOps sys0 inv_init (by decide)
 
 end NQ.C13
